@@ -6,6 +6,7 @@ import (
 )
 
 var errInvalidClientKeyLength = errors.New("Invalid client public key size")
+var errInvalidClientKey = errors.New("Invalid client public key")
 
 var errInvalidPairMethod = func(m PairMethodType) error {
 	return fmt.Errorf("Invalid pairing method %v\n", m)
